@@ -25,6 +25,7 @@ import (
 	redisstore "github.com/oauth2-proxy/oauth2-proxy/v7/pkg/sessions/redis"
 	"github.com/oauth2-proxy/oauth2-proxy/v7/pkg/validation"
 	"github.com/oauth2-proxy/oauth2-proxy/v7/verifx/evidence"
+	"github.com/oauth2-proxy/oauth2-proxy/v7/verifx/vtime"
 	"github.com/oauth2-proxy/oauth2-proxy/v7/verifx/world"
 	"github.com/spf13/pflag"
 )
@@ -93,6 +94,7 @@ func TestMain(m *testing.M) {
 		quietLogger()
 		world.SeedRandom(1, 0)
 		world.ResetClock()
+		vtime.RealSleep = true
 		if f := raceSupplements[rr]; f != nil {
 			f()
 		}
